@@ -55,3 +55,7 @@ pub use crate::value::{
 };
 
 pub mod prelude;
+
+#[cfg(sonic_rs_verif)]
+#[doc(hidden)]
+pub mod verif;
